@@ -20,6 +20,7 @@ import (
 	"runtime"
 	"strings"
 	"testing"
+	"time"
 
 	"pgregory.net/rapid"
 
@@ -71,6 +72,7 @@ const (
 	c24Admitted // Start succeeded, writes not all parked yet
 	c24InFlight
 	c24Returned
+	c24Stuck // see start(): blocked somewhere the harness does not observe
 )
 
 type c24Req struct {
@@ -103,7 +105,7 @@ type c24Run struct {
 	// teardown: the schedule is over, everything is being cancelled and released; nothing is judged any more
 	teardown bool
 
-	sawQueued, sawQueuedAdmitted, sawCancelQueued, sawPreCancelled, sawCancelInFlight, sawFull bool
+	sawQueued, sawQueuedAdmitted, sawCancelQueued, sawPreCancelled, sawCancelInFlight, sawFull, sawStuck bool
 }
 
 // c24UnknownLenEvery is set by the property before a schedule is played: every n-th request then has
@@ -214,7 +216,7 @@ func (r *c24Run) applyPark(d *vfDest) {
 	}
 	q := r.reqs[id]
 	q.parked = append(q.parked, d)
-	if len(q.parked) >= r.rf && q.state != c24Returned {
+	if len(q.parked) >= r.rf && q.state != c24Returned { // also from c24Stuck
 		// also when it never passed the gate: all its writes sit in the peers
 		q.state = c24InFlight
 	}
@@ -232,6 +234,22 @@ func (r *c24Run) pump(cond func() bool) {
 			r.applyPark(d)
 		}
 	}
+}
+
+// pumpFor is pump with a deadline; it reports whether cond became true.
+func (r *c24Run) pumpFor(d time.Duration, cond func() bool) bool {
+	deadline := time.After(d)
+	for !cond() {
+		select {
+		case e := <-r.gate.ev:
+			r.apply(e)
+		case dst := <-r.hz.peers.parkEv:
+			r.applyPark(dst)
+		case <-deadline:
+			return cond()
+		}
+	}
+	return true
 }
 
 // spin gives other goroutines a bounded chance to make progress and folds whatever events exist by
@@ -298,7 +316,16 @@ func (r *c24Run) start(kind string, preCancelled bool) {
 	go func() { <-q.done; r.gate.ev <- c24Ev{id, "returned"} }()
 
 	// stable point: reached the gate ...
-	r.pump(func() bool { return q.entered || q.state == c24Returned || q.state == c24InFlight })
+	if !r.pumpFor(5*time.Second, func() bool { return q.entered || q.state == c24Returned || q.state == c24InFlight }) {
+		// The request neither asked the observed gate, nor reached the peers, nor returned: it is
+		// blocked somewhere the harness does not see (cannot happen in the code as it is: every
+		// remote-write endpoint asks Limiter.WriteGate()). Not judged by itself - the schedule goes on
+		// without it, so that the invariant can still be evaluated on what the other requests do.
+		q.state = c24Stuck
+		r.sawStuck = true
+		r.logf("   request %d (%s) neither reached the write gate nor the write path within 5 s", id, kind)
+		return
+	}
 	if q.state == c24Returned {
 		return
 	}
